@@ -1,16 +1,19 @@
 /-
-C02 counterexamples (candidate findings, all in the exit `sleep(0)` of `_run`, arrival S4, i.e. after the
-plan's last message and before the engine closes the runs that are still open).  Evaluated on the model by
-the kernel; `./check C02` replays the same scenarios on the real RunEngine.  Not proof obligations.
+C02: what happens to requests that land in the exit `sleep(0)` of `_run` (arrival S4: after the plan's last
+message and before the engine closes the runs that are still open).  Evaluated on the model by the kernel;
+`./check C02` replays the same scenarios on the real RunEngine (corpus/C02).  Not proof obligations.
 
-(a) halt() accepted there: the call raises RunEngineInterrupted, the state goes running -> halting -> idle,
-    but the RunStop written by the engine says 'success' (`_halt_coro` stores 'abort' only when paused and
-    otherwise relies on the ladder, which has already run) -- abort() at the same point gives 'abort'.
-(b) request_suspend there while no checkpoint exists: the engine announces "marking exit_status as
-    'abort'", goes running -> aborting -> idle, raises RunEngineInterrupted; RunStop says 'success'.
-(c) stop() accepted, RequestStop leaves the loop ('success'); an abort() arriving in the exit sleep is
-    REFUSED (TransitionError stopping -> aborting) but `_abort_coro` has already stored 'abort' and the
-    reason: RunStop says 'abort'.
+OPEN FINDING (c): stop() accepted, RequestStop leaves the loop ('success'); an abort() arriving in the exit
+    sleep is REFUSED (TransitionError stopping -> aborting) but `_abort_coro` has already stored 'abort' and
+    the reason: the RunStop says 'abort'/'requested' (signature
+    `exit-status-after-plan-end:refused-abort-request-at-S4-while-stopping:abort-instead-of-success`).
+
+OBSERVATIONS, not findings (ruling: a request ACCEPTED after the plan has ended may or may not be reflected):
+(a) halt() accepted there: RunEngineInterrupted, running -> halting -> idle, RunStop says 'success'
+    (`_halt_coro` stores 'abort' only when paused, otherwise relies on the ladder, which has already run),
+    whereas abort() at the same point gives 'abort' (`_abort_coro` stores it itself).
+(b) request_suspend there while no checkpoint exists: running -> aborting -> idle, RunEngineInterrupted,
+    RunStop says 'success' (FailedPause is never delivered).
 -/
 import BlueskyVerif.Props.C02
 
